@@ -279,7 +279,18 @@ func (a *asyncCall) wait() callOutcome { return <-a.done }
 
 // Directed scenarios.  The build is held inside an on-load callback (gate) so
 // that "a build is running" is a fact, not a matter of timing.
+// settleScale stretches the waiting times of the directed scenarios; the one
+// timing-sensitive verdict (a cancelled build must report cancellation) is
+// retried with longer waits before it is reported
 func scenDirected(seed uint64, e *ctxEnv, idx int, which string) {
+	for _, scale := range []int{1, 8, 40} {
+		if !scenDirectedOnce(seed, e, idx, which, scale, scale == 40) {
+			return
+		}
+	}
+}
+
+func scenDirectedOnce(seed uint64, e *ctxEnv, idx int, which string, scale int, last bool) (retry bool) {
 	r := NewRng(seed)
 	c := newCtxRec(r, e.tmp, idx)
 	c.failLoadPct, c.failEndPct, c.failStartPct = 0, 0, 0
@@ -292,7 +303,7 @@ func scenDirected(seed uint64, e *ctxEnv, idx int, which string) {
 	ctx, cerr := api.Context(c.options())
 	if cerr != nil {
 		e.st.Fail("context-creation-failed", desc, cerr.Error(), "context is created")
-		return
+		return false
 	}
 	released := false
 	release := func() {
@@ -322,7 +333,7 @@ func scenDirected(seed uint64, e *ctxEnv, idx int, which string) {
 		}
 		return a
 	}
-	settle := func() { time.Sleep(time.Duration(15+r.Intn(25)) * time.Millisecond) }
+	settle := func() { time.Sleep(time.Duration((15+r.Intn(25))*scale) * time.Millisecond) }
 
 	switch which {
 	case "sequential-edits":
@@ -378,6 +389,10 @@ func scenDirected(seed uint64, e *ctxEnv, idx int, which string) {
 		if !ok.returned || !oa.returned {
 			e.st.Fail("call-did-not-return", desc, "Cancel/Rebuild did not return", "every call terminates")
 		} else if oa.rv.Kind != "build" || !oa.rv.Canc {
+			if !last {
+				release()
+				return true // maybe the Cancel goroutine was not scheduled in time: retry with longer waits
+			}
 			e.st.Fail("cancelled-build-not-reported-as-cancelled", desc, rvString(oa.rv), "a cancellation error (Cancel was called and had not returned when the build was released)")
 		}
 		// the next rebuild is a fresh, uncancelled build
@@ -437,6 +452,7 @@ func scenDirected(seed uint64, e *ctxEnv, idx int, which string) {
 	}
 	release()
 	e.finish(c, desc, which)
+	return false
 }
 
 func runContexts(r *Rng, e *ctxEnv, n int, tier string) {
